@@ -1,0 +1,88 @@
+//go:build verif
+
+// Contracts for package operator, checked by /verif (govc). Ghost functions
+// and comments only.
+package operator
+
+func forall(lo, hi int, f func(int) bool) bool {
+	for i := lo; i < hi; i++ {
+		if !f(i) {
+			return false
+		}
+	}
+	return true
+}
+
+// ghostTimerPrefix: the 3-byte DKV prefix of a key group's timers: <kg:2 BE><0x01>.
+func ghostTimerPrefix(kg uint16) []byte { return []byte{byte(kg >> 8), byte(kg), 0x01} }
+
+// ---- KeyGroupPriorityQueue: a write-through cache in front of the DKV.
+// dbTimers = the live DKV keys with this key group's timer prefix.
+// Representation invariant (ghostPQ below, written inline in the contracts):
+//   cache ⊆ dbTimers;  allDataInCache ⇒ cache = dbTimers;
+//   ¬allDataInCache ⇒ every uncached db timer is greater than every cached one.
+
+//@ define pqTimer(pq, k) := has(pq.db.live, k) && hasprefix(k, ghostTimerPrefix(uint16(pq.keyGroup)))
+//@ define pqShape(pq) := pq.cache != nil && pq.cache.tree != nil && pq.db != nil && pq.cache.tree.bytes >= 0 && pq.cache.byteSize == uint64(pq.cache.tree.bytes)
+//@ define pqInv(pq) := pqShape(pq) &&
+//@        forall(func(k string) bool { return has(pq.cache.tree.set, k) ==> pqTimer(pq, k) }) &&
+//@        (pq.allDataInCache ==> forall(func(k string) bool { return pqTimer(pq, k) ==> has(pq.cache.tree.set, k) })) &&
+//@        (!pq.allDataInCache ==> forall(func(k string, c string) bool { return pqTimer(pq, k) && !has(pq.cache.tree.set, k) && has(pq.cache.tree.set, c) ==> c < k }))
+
+//@ func KeyGroupPriorityQueue.loadFromDB
+//@   property C10
+//@   requires pqInv(pq)
+//@   modifies pq.allDataInCache, ds.SortedCache.byteSize, btree.BTreeG.set, btree.BTreeG.bytes
+//@   ensures pqInv(pq)
+//@   ensures len(pq.cache.tree.set) > 0 || pq.allDataInCache
+//@   loop 0:
+//@     invariant pqShape(pq)
+//@     invariant forall(func(k string) bool { return has(pq.cache.tree.set, k) == exists(0, idx_, func(p int) bool { return string(seqat(coll_, p).Key()) == k }) })
+//@     invariant len(pq.cache.tree.set) > 0 || idx_ == 0
+
+// Peek/Pop hand out the smallest pending timer of the key group, wherever it is stored.
+//@ func KeyGroupPriorityQueue.Peek
+//@   property C10
+//@   requires pqInv(pq)
+//@   modifies pq.allDataInCache, ds.SortedCache.byteSize, btree.BTreeG.set, btree.BTreeG.bytes
+//@   ensures pqInv(pq)
+//@   ensures result1 == exists(func(k string) bool { return pqTimer(pq, k) })
+//@   ensures result1 ==> pqTimer(pq, string(result0)) && forall(func(k string) bool { return pqTimer(pq, k) ==> string(result0) <= k })
+
+//@ func KeyGroupPriorityQueue.Pop
+//@   property C10
+//@   requires pqInv(pq) && pq.db.wal != nil && pq.db.mtables != nil && pq.db.wal.activeBuffer != nil && pq.db.wal.latestSeqNum <= pq.db.seqNum && !pq.db.wal.sealedFlag
+//@   modifies pq.allDataInCache, ds.SortedCache.byteSize, btree.BTreeG.set, btree.BTreeG.bytes, dkv.DB.seqNum, dkv.DB.live, wal.Writer.*, wal.bufferSegment.*, memtable.List.*, memtable.MemTable.*, ziptree.ZipTree.*, ziptree.Node.*
+//@   ensures pqInv(pq)
+//@   ensures result1 == exists(func(k string) bool { return has(old(pq.db.live), k) && hasprefix(k, ghostTimerPrefix(uint16(pq.keyGroup))) })
+//@   ensures result1 ==> has(old(pq.db.live), string(result0)) && hasprefix(string(result0), ghostTimerPrefix(uint16(pq.keyGroup))) &&
+//@           forall(func(k string) bool { return has(old(pq.db.live), k) && hasprefix(k, ghostTimerPrefix(uint16(pq.keyGroup))) ==> string(result0) <= k })
+//@   ensures result1 ==> forall(func(k string) bool { return has(pq.db.live, k) == (has(old(pq.db.live), k) && k != string(result0)) })
+//@   ensures !result1 ==> same(pq.db.live, old(pq.db.live))
+
+//@ func KeyGroupPriorityQueue.Push
+//@   property C10
+//@   requires pqInv(pq) && pq.db.wal != nil && pq.db.mtables != nil && pq.db.wal.activeBuffer != nil && pq.db.wal.latestSeqNum <= pq.db.seqNum && !pq.db.wal.sealedFlag
+//@   requires hasprefix(data, ghostTimerPrefix(uint16(pq.keyGroup)))
+//@   modifies pq.allDataInCache, ds.SortedCache.byteSize, btree.BTreeG.set, btree.BTreeG.bytes, dkv.DB.seqNum, dkv.DB.live, wal.Writer.*, wal.bufferSegment.*, memtable.List.*, memtable.MemTable.*, ziptree.ZipTree.*, ziptree.Node.*
+//@   ensures pqInv(pq)
+//@   ensures forall(func(k string) bool { return has(pq.db.live, k) == (has(old(pq.db.live), k) || k == string(data)) })
+//@   loop 0:
+//@     invariant pqShape(pq) && same(pq.db.live, old(pq.db.live))
+//@     invariant forall(func(k string) bool { return has(pq.cache.tree.set, k) ==> pqTimer(pq, k) || k == string(data) })
+//@     invariant pq.allDataInCache ==> forall(func(k string) bool { return pqTimer(pq, k) ==> has(pq.cache.tree.set, k) })
+//@     invariant !pq.allDataInCache ==> forall(func(k string, c string) bool { return (pqTimer(pq, k) || k == string(data)) && !has(pq.cache.tree.set, k) && has(pq.cache.tree.set, c) ==> c < k })
+
+//@ func KeyGroupPriorityQueue.Delete
+//@   property C10
+//@   requires pqInv(pq) && pq.db.wal != nil && pq.db.mtables != nil && pq.db.wal.activeBuffer != nil && pq.db.wal.latestSeqNum <= pq.db.seqNum && !pq.db.wal.sealedFlag
+//@   modifies pq.allDataInCache, ds.SortedCache.byteSize, btree.BTreeG.set, btree.BTreeG.bytes, dkv.DB.seqNum, dkv.DB.live, wal.Writer.*, wal.bufferSegment.*, memtable.List.*, memtable.MemTable.*, ziptree.ZipTree.*, ziptree.Node.*
+//@   ensures pqInv(pq)
+//@   ensures forall(func(k string) bool { return has(pq.db.live, k) == (has(old(pq.db.live), k) && k != string(data)) })
+
+//@ func KeyGroupPriorityQueue.IsEmpty
+//@   property C10
+//@   requires pqInv(pq)
+//@   modifies pq.allDataInCache, ds.SortedCache.byteSize, btree.BTreeG.set, btree.BTreeG.bytes
+//@   ensures pqInv(pq)
+//@   ensures result == !exists(func(k string) bool { return pqTimer(pq, k) })
